@@ -327,6 +327,10 @@ def oracle_case(i, seed):
         pts = detector_points(theta=th, phi=ph, r=rr)
         nn = complex(float(rng.uniform(1.4, 1.7)), float(rng.choice([0.0, rng.uniform(0, 0.1)])))
         kcase = i % 5
+        if kcase == 0 and (i // 5) % 4 == 3:
+            # an absorbing particle whose REAL index equals the medium's (a dyed bead in a matching liquid): it scatters through
+            # the imaginary part alone
+            nn = complex(NMED, float(rng.uniform(0.02, 0.3)))
         if kcase == 0:
             # sphere limit at every azimuth: fields, scattering matrix
             x = float(np.exp(rng.uniform(np.log(0.1), np.log(20.0))))
